@@ -249,8 +249,13 @@ def part_random(res, nap, tier, rng):
         epo = iset(nap, ep)
         rows = epoch_rows(ts, ep)
 
+        # every 5th case: an INTEGER-dtype signal against a kernel of halves (the output is still the exact real convolution: seed C18-5 allocated the
+        # result in the signal's dtype); outputs are doubled before they are compared with the integer oracle / model
+        half = n % 5 == 4
+        dt = np.int64 if half else float
+
         def build(cols):
-            arr = np.array(cols, dtype=float).T.reshape((T,) + dshape) if dshape else np.array(cols[0], dtype=float)
+            arr = np.array(cols, dtype=dt).T.reshape((T,) + dshape) if dshape else np.array(cols[0], dtype=dt)
             if kind == "Tsd":
                 return nap.Tsd(G.arr(ts), arr, time_support=epo)
             if kind == "TsdFrame":
@@ -260,8 +265,11 @@ def part_random(res, nap, tier, rng):
         karr = np.array(kern, dtype=float).T if kcols else np.array(kern[0], dtype=float)
         if rng.random() < 0.3:
             karr = karr.astype(int)
+        if half:
+            karr = karr.astype(float) * 0.5
+            res.count("integer_signal_half_kernel")
         x = build(data)
-        inp = {"ts": ts, "ep": ep, "kind": kind, "data": data, "kernel": kern, "kernel_2d": bool(kcols), "trim": trim}
+        inp = {"ts": ts, "ep": ep, "kind": kind, "data": data, "kernel": kern, "kernel_2d": bool(kcols), "trim": trim, "integer_signal_kernel_halved": half}
         short = any(0 < len(r) < klen for r in rows)
         res.case((tuple(ts), tuple(ep), kind, kcols, klen, trim, n), nontrivial=len(ep) > 1)
         res.count("random_cases")
@@ -283,7 +291,7 @@ def part_random(res, nap, tier, rng):
         exp = [[oracle_convolve(ts, data[i], ep, kern[j], trim) for j in range(nk)] for i in range(nc)]
         eshape = (T,) + dshape + ((nk,) if kcols else ())
         etype = {1: "Tsd", 2: "TsdFrame"}.get(len(eshape), "TsdTensor")
-        got_flat = ints(r.values)
+        got_flat = ints(np.asarray(r.values) * (2 if half else 1))
         ok_axis = [C.to_ns(t) for t in r.t] == ts and support_of(r) == list(ep)
         if not ok_axis:
             res.violations.append({"key": dict(kk, part="time_axis"), "what": "convolve changed the timestamps / time support", "input": inp})
